@@ -71,6 +71,7 @@ pub struct EnvL {
   pub subjects: Vec<LSubject>,
   pub behaviors: Vec<BehaviorSubject<Val, LSubject>>,
   pub hotc: Vec<Rc<RefCell<Vec<LSubscriber>>>>,
+  pub groups: Arc<Mutex<GroupReg>>,
 }
 
 /// Environment of one behaviour, thread-safe form.
@@ -80,6 +81,30 @@ pub struct EnvT {
   pub subjects: Vec<TSubject>,
   pub behaviors: Vec<BehaviorSubject<Val, TSubject>>,
   pub hotc: Vec<Arc<Mutex<Vec<TSubscriber>>>>,
+  pub groups: Arc<Mutex<GroupReg>>,
+}
+
+/// numbering of the groups announced by group_by (the specification numbers the per-group subjects in creation order):
+/// the key function of every group_by subscription notes each new key here, just before the group is announced
+#[derive(Default)]
+pub struct GroupReg {
+  pub count: i64,
+  pub last: i64,
+}
+
+pub type LGroup = rxrust::ops::group_by::KeyObservable<Val, LSubject>;
+pub type TGroup = rxrust::ops::group_by::KeyObservable<Val, TSubject>;
+pub type LGBox = CloneableBoxOp<'static, LGroup, Val>;
+pub type TGBox = CloneableBoxOpThreads<TGroup, Val>;
+
+/// is AST x a stream of groups (group_by, possibly below operators that act on the stream of groups)?
+pub fn is_groups(prog: &[Ast], x: usize) -> bool {
+  let n = &prog[x - 1];
+  match n.op.as_str() {
+    "group_by" => true,
+    "take" | "skip" | "take_until" => is_groups(prog, n.s1),
+    _ => false,
+  }
 }
 
 macro_rules! stash_push {
@@ -92,11 +117,40 @@ macro_rules! stash_push {
 }
 
 macro_rules! builder {
-  ($fname:ident, $env:ty, $bx:ty, $form:ident, $subscriber:ty,
+  ($fname:ident, $gname:ident, $env:ty, $bx:ty, $gbx:ty, $subject:ty, $form:ident, $subscriber:ty,
    $merge:ident, $zip:ident, $combine_latest:ident, $with_latest_from:ident,
    $take_until:ident, $skip_until:ident, $sample:ident,
    $merge_all:ident, $concat_all:ident, $flatten:ident, $flat_map:ident, $concat_map:ident,
    $finalize:ident, $share:ident, $delay:ident, $delay_at:ident, $observe_on:ident) => {
+    /// a stream of groups: group_by, possibly below take / skip / take_until on the stream of groups
+    pub fn $gname(env: &$env, x: usize) -> $gbx {
+      let ast = env.prog[x - 1].clone();
+      let a = ast.a;
+      match ast.op.as_str() {
+        "group_by" => {
+          let reg = env.groups.clone();
+          let base = (env.subjects.len() + env.behaviors.len()) as i64;
+          let mut seen: Vec<Val> = vec![];
+          $fname(env, ast.s1)
+            .group_by::<_, _, $subject>(move |v: &Val| {
+              let k = keyf(a, v);
+              if !seen.contains(&k) {
+                seen.push(k.clone());
+                let mut r = reg.lock().unwrap();
+                r.count += 1;
+                r.last = base + r.count;
+              }
+              k
+            })
+            .box_it()
+        }
+        "take" => $gname(env, ast.s1).take(a as usize).box_it(),
+        "skip" => $gname(env, ast.s1).skip(a as usize).box_it(),
+        "take_until" => $gname(env, ast.s1).$take_until($fname(env, ast.s2)).box_it(),
+        other => panic!("harness: {other} on a stream of groups"),
+      }
+    }
+
     pub fn $fname(env: &$env, x: usize) -> $bx {
       let ast = env.prog[x - 1].clone();
       let sh = env.sh.clone();
@@ -263,6 +317,16 @@ macro_rules! builder {
         "sample" => src(ast.s1).$sample(src(ast.s2)).box_it(),
         "buffer" => src(ast.s1).buffer(src(ast.s2).map(|_| ())).map(Val::L).box_it(),
         // ------------------------------------------------ higher order
+        "flat" if is_groups(&env.prog, ast.s1) => {
+          // flattening the groups back
+          let g = $gname(env, ast.s1);
+          match b {
+            1 => observable::defer(move || g.clone().$concat_all()).box_it(),
+            2 => observable::defer(move || g.clone().$flatten()).box_it(),
+            3 => observable::defer(move || g.clone().$flat_map(|k| k)).box_it(),
+            _ => observable::defer(move || g.clone().$merge_all(a as usize)).box_it(),
+          }
+        }
         "flat" => {
           let inners: Vec<$bx> = ast.ids().into_iter().map(|i| $fname(env, i)).collect();
           let pick = move |v: Val| inners[(w(&v).rem_euclid(inners.len() as i64)) as usize].clone();
@@ -394,12 +458,12 @@ impl Iterator for CountIter {
 }
 
 builder!(
-  build_l, EnvL, LBox, local, LSubscriber,
+  build_l, groups_l, EnvL, LBox, LGBox, LSubject, local, LSubscriber,
   merge, zip, combine_latest, with_latest_from, take_until, skip_until, sample,
   merge_all, concat_all, flatten, flat_map, concat_map, finalize, share, delay, delay_at, observe_on
 );
 builder!(
-  build_t, EnvT, TBox, threads, TSubscriber,
+  build_t, groups_t, EnvT, TBox, TGBox, TSubject, threads, TSubscriber,
   merge_threads, zip_threads, combine_latest_threads, with_latest_from_threads,
   take_until_threads, skip_until_threads, sample_threads,
   merge_all_threads, concat_all_threads, flatten_threads, flat_map_threads, concat_map_threads,
